@@ -144,7 +144,7 @@ def run(tier):
             recs.append({"params": want, "insts": irecs, "known": sorted(env.keys())})
             rmeta.append((label, src, [obs["%sI%d" % (base, k)]["info"]["decl"].get("ok") for k in range(len(insts))],
                           [obs["%sI%d" % (base, k)]["info"]["name"].get("ok") for k in range(len(insts))]))
-    tp = os.path.join(vlib.BUILD, "generic-trace.ndjson")
+    tp = os.path.join(vlib.TMP, "generic-trace.ndjson")
     vlib.write_ndjson(tp, recs)
     a = vlib.run_tlc("Trace_Generic", "Trace_Generic.cfg", workers=4, env={"VERIF_TRACE": tp}, timeout=1200,
                      tags=("BADPARAMETRIC", "BADPARAMS", "BADSCOPE", "BADNAME"), metatag="c07a")
